@@ -48,7 +48,8 @@ SPEC = dict(
     design_ref='DESIGN.md §6 C17',
     rule='stacks of depth 0..50 (thorough 0..2000 and the cell-depth limit 1021..1024) of null / ints at +-2^63, +-(2^63+-1), +-2^256 and random '
          'magnitudes / cells / slices with partly consumed bits and refs / builders / tuples nested to depth 6 with lengths 0..5, 255, 256 / all ten '
-         'continuation kinds with control data (each Maybe on and off, inlined stacks, save lists); each stack is serialised twice, compared '
+         'continuation kinds with control data (each Maybe on and off, inlined stacks, save lists); stacks that hold the SAME object several times (structurally equal parts of a description hash-consed into one '
+         'tuple / slice / builder / continuation object: siblings, cousins at different depths, several stack entries, a shared nil; 27 spelled-out patterns x 4 sharing modes + pool-built and random stacks); each stack is serialised twice, compared '
          'with an independent transcription of the schema, parsed back and compared by content, the caller\'s values are snapshotted before and '
          'after, and the Lean model answers the same requests; distinct = distinct description; non-trivial = depth >= 1',
     trusted_base=['Model/VmStack.lean mirrors tlb/vm_stack.py by hand (BOp/SOp state functions)',
